@@ -133,7 +133,8 @@ class RequestHandlerBase(MethodView):
 
         if start_str == '':
             amount: int = int(end_str, 10)
-            start = content_length - amount
+            # a suffix longer than the resource selects the whole resource
+            start = max(0, content_length - amount)
             end = content_length - 1
         else:
             start = int(start_str, 10)
@@ -141,6 +142,10 @@ class RequestHandlerBase(MethodView):
                 end = content_length - 1
             else:
                 end = int(end_str, 10)
+                if end >= start:
+                    # RFC 7233: a last-byte-pos beyond the end of the
+                    # resource means "up to the last byte"
+                    end = min(end, content_length - 1)
 
         status: int = 206
         headers: dict[str, str] = {
